@@ -510,6 +510,7 @@ package mpb
 
 //@ func (barStyle).Build
 //@   props    C07 C02 C04
+//@   assumes  runes: forall(i, 0, components, plain(s.style[i])) && forall(j, 0, len(s.tipFrames), plain(s.tipFrames[j])) // the style strings the user gave carry no escape sequences (colour goes through the Meta setters, applied after measuring)
 //@   loop 1   modifies elems(bf.tip.frames)
 //@   loop 1   invariant bf != nil && fresh(bf) && fresh(bf.tip.frames) && len(bf.tip.frames) == len(s.tipFrames) && s.tipFrames == old(s.tipFrames)
 //@   loop 1   invariant forall(j, 0, rangeindex + 1, bf.tip.frames[j].width == dw(bf.tip.frames[j].bytes))
@@ -578,6 +579,7 @@ package mpb
 //@   wraps    uint
 //@   requires s != nil && w != nil
 //@   requires 0 <= stat.AvailableWidth && stat.AvailableWidth <= 1<<31 && stat.RequestedWidth <= 1<<31
+//@   assumes  frames: forall(i, 0, len(s.frames), plain(s.frames[i])) // the frames the user gave carry no escape sequences: runewidth measures what the terminal shows (colour goes through Meta, applied after measuring)
 //@   modifies written(w), s.count
 //@   ensures  fits@!C08: dw(written(w)) - old(dw(written(w))) <= max(0, stat.AvailableWidth) && dw(written(w)) >= old(dw(written(w)))
 //@   ensures  exact: result == nil ==> dw(written(w)) == old(dw(written(w))) || dw(written(w)) == old(dw(written(w))) + allot(stat.RequestedWidth, stat.AvailableWidth)
@@ -1412,11 +1414,37 @@ package mpb
 //@   ensures  finalframe: err#1 == nil && s.autoRefresh ==> called("(*pState).render") >= entry(2, called("(*pState).render")) + 1
 //@   ensures  released: called("(*sync.WaitGroup).Done") == old(called("(*sync.WaitGroup).Done")) + 1
 
+// filler middleware options (C03: what a finished bar shows): each shortcut is the option it is named
+// after with the empty message, each message option hands its own closure to BarFillerMiddleware,
+// and the installed option replaces the filler by what the middleware makes of the old one
+//@ func BarFillerMiddleware
+//@   props    C02 C03 C07
+//@   modifies nothing
+//@   ensures  none: in(middle) == nil ==> result == nil
+//@   ensures  option: in(middle) != nil ==> result != nil && fnof(result) == fn("BarFillerMiddleware$1") && bound(result, "middle") == in(middle)
 //@ func BarFillerMiddleware$1
-//@   props    C02 C09
+//@   props    C02 C09 C03
 //@   requires s != nil && middle != nil
 //@   modifies s.filler
 //@   ensures  okfiller(s.filler)
+//@   ensures  wrapped: called("BarFillerMiddleware$1.middle") == old(called("BarFillerMiddleware$1.middle")) + 1 && calledWith("BarFillerMiddleware$1.middle", 0) == old(s.filler)
+//@              && s.filler == returned("BarFillerMiddleware$1.middle", 0)
+//@ func BarFillerOnComplete
+//@   props    C02 C03 C07
+//@   ensures  option: called("BarFillerMiddleware") == old(called("BarFillerMiddleware")) + 1 && result == returned("BarFillerMiddleware", 0)
+//@              && fnof(calledWith("BarFillerMiddleware", 0)) == fn("BarFillerOnComplete$1") && bound(calledWith("BarFillerMiddleware", 0), "message") == in(message)
+//@ func BarFillerOnAbort
+//@   props    C02 C03 C07
+//@   ensures  option: called("BarFillerMiddleware") == old(called("BarFillerMiddleware")) + 1 && result == returned("BarFillerMiddleware", 0)
+//@              && fnof(calledWith("BarFillerMiddleware", 0)) == fn("BarFillerOnAbort$1") && bound(calledWith("BarFillerMiddleware", 0), "message") == in(message)
+//@ func BarFillerClearOnComplete
+//@   props    C02 C03 C07
+//@   ensures  empty: called("BarFillerOnComplete") == old(called("BarFillerOnComplete")) + 1 && calledWith("BarFillerOnComplete", 0) == "" && result == returned("BarFillerOnComplete", 0)
+//@              && called("BarFillerOnAbort") == old(called("BarFillerOnAbort"))
+//@ func BarFillerClearOnAbort
+//@   props    C02 C03 C07
+//@   ensures  empty: called("BarFillerOnAbort") == old(called("BarFillerOnAbort")) + 1 && calledWith("BarFillerOnAbort", 0) == "" && result == returned("BarFillerOnAbort", 0)
+//@              && called("BarFillerOnComplete") == old(called("BarFillerOnComplete"))
 //@ func BarExtender
 //@   props    C02 C15 C04
 //@ func BarExtender$1
@@ -1592,11 +1620,15 @@ package mpb
 //@   props    C14 C02
 //@   requires p != nil && p.cancel != nil
 //@   ensures  called("Progress.cancel") == old(called("Progress.cancel")) + 1 && called("(*sync.WaitGroup).Wait") == old(called("(*sync.WaitGroup).Wait")) + 1
+//@   ensures  cancelfirst: when("Progress.cancel") < when("(*sync.WaitGroup).Wait") // cancel, then wait for the render goroutine: the other order waits for a goroutine nothing has told to stop
 
 //@ func (*Progress).Wait
 //@   props    C14 C02
 //@   requires p != nil && p.cancel != nil
 //@   ensures  called("(*Progress).Shutdown") == old(called("(*Progress).Shutdown")) + 1
+//@   ensures  barsfirst: whenFirst("(*sync.WaitGroup).Wait") < when("(*Progress).Shutdown") // the bars are waited for before the container is shut down (a shutdown aborts the ones still running)
+//@   ensures  userlast: p.uwg != nil ==> calledWith("(*sync.WaitGroup).Wait", 0) == p.uwg && when("(*Progress).Shutdown") < when("(*sync.WaitGroup).Wait") // the user's group is awaited after the shutdown: its goroutines may be waiting for the shutdown notifier
+//@   ensures  nouser: p.uwg == nil ==> when("(*sync.WaitGroup).Wait") < when("(*Progress).Shutdown")
 
 // refresh listeners: on cancellation the done channel is closed once and the listener returns
 //@ func (*pState).autoRefreshListener
